@@ -293,7 +293,7 @@ def joinOr (l : List String) (sep : String) : String := if l.isEmpty then "-" el
 
 def sortStrings (l : List String) : List String := (l.toArray.qsort (· < ·)).toList
 
-def showWorld (w : World) (grantCap : Nat := 2) : String :=
+def showWorld (w : World) (grantCap : Nat := 2) (noOnError : Bool := false) : String :=
   let conns := (List.range w.conns.length).map (fun k =>
     let c := getConn w k
     s!"c{k}[" ++ String.intercalate "," (c.pkts.map (fun pw => showPkt pw.1 ++ showWire pw.2)) ++ "]")
@@ -303,7 +303,7 @@ def showWorld (w : World) (grantCap : Nat := 2) : String :=
   let ret := if w.connectErr then "err" else match w.connectReturned with | none => "-" | some b => if b then "1" else "0"
   String.intercalate " " conns ++
     s!" dl={joinOr (w.broker.delivered.map toString) ","} bs={joinOr bs ","} ak={joinOr (w.broker.acked.map showReq) ","}" ++
-    s!" oe={if oe.isEmpty then "-" else oe} hd={joinOr hd ","} tt={w.totalTasks} tr={w.totalRetries} qr={if w.stuck then 0 else w.retryQ.length} qt={w.taskQ.length}" ++
+    s!" oe={if noOnError then "?" else if oe.isEmpty then "-" else oe} hd={joinOr hd ","} tt={w.totalTasks} tr={w.totalRetries} qr={if w.stuck then 0 else w.retryQ.length} qt={w.taskQ.length}" ++
     s!" dials={w.dials} ret={ret} rej={w.rejected}"
 
 def planOf (w : World) : String :=
@@ -350,7 +350,9 @@ def run (toks : List String) : Option String :=
     let settled := final.taskQ.isEmpty && final.retryQ.isEmpty && !final.stuck && (match final.phase with | .up k => (getConn final k).alive | _ => false)
     -- `g1`: the scripted broker grants at most QoS 1; the client's requests are unaffected, only the broker's table is capped
     let cap := if (cfgStr.splitOn "g1").length > 1 then 1 else 2
-    pure (showWorld final cap ++ " || " ++ String.intercalate ";" (ws.map planOf) ++
+    -- `e0`: the application installs no OnError callback (nothing to observe there; the plan does not wait for it)
+    let noOnError := (cfgStr.splitOn "e0").length > 1
+    pure (showWorld final cap noOnError ++ " || " ++ String.intercalate ";" (ws.map planOf) ++
       s!" # waits={joinOr (final.waits.map toString) ","} phase={showPhase final.phase} stuck={if final.stuck then 1 else 0} settled={if settled then 1 else 0}")
   | _ => none
 
